@@ -352,7 +352,7 @@ func drawChol(t *rapid.T) cholCase {
 }
 
 func TestChol(t *testing.T) {
-	vk.Run(t, "chol", vk.Opts{Quick: 600, Thorough: 25000}, drawChol, finish(checkChol))
+	vk.Run(t, "chol", vk.Opts{Quick: 600, Thorough: 15000}, drawChol, finish(checkChol))
 }
 
 // ---- Dlauum / Dlauu2 -------------------------------------------------------
@@ -443,7 +443,7 @@ func checkLauum(c lauumCase) *vk.Failure {
 }
 
 func TestLauum(t *testing.T) {
-	vk.Run(t, "lauum", vk.Opts{Quick: 300, Thorough: 10000}, func(t *rapid.T) lauumCase {
+	vk.Run(t, "lauum", vk.Opts{Quick: 300, Thorough: 6000}, func(t *rapid.T) lauumCase {
 		return lauumCase{N: drawDim(t, "n", 80, 200), PadA: vk.Pad(t, "padA"), Upper: rapid.Bool().Draw(t, "upper"),
 			Ints: rapid.Bool().Draw(t, "ints"), Seed: vk.SeedGen(t, "seed")}
 	}, finish(checkLauum))
